@@ -213,7 +213,7 @@ def _check_set(mspecs, carrier, body, acc, space, naming, only_call, shared):
     V = Val()
     max_pos = max(m.max_pos for m in ref.methods)
     found = []
-    shapes = call_shapes(max_pos) if only_call is None else [only_call]
+    shapes = call_shapes(max_pos) if only_call is None else [tuple(only_call[:2])]
     kwpos = kwpos_allowed(ref)
     longest = max((tuple(p[0] for p in m.pos) for m in ref.methods), key=len)
     for ts, kws in shapes:
@@ -304,10 +304,12 @@ def shard(shard, nshards, tier, seed):
         acc.count("programs")
         acc.h("programs_per_space", space)
         try:
-            check_set(mspecs, carrier, body, acc, space, naming, fresh=(tier != "quick" and space == "single"))
+            build(mspecs, carrier)[0].compile()
         except Exception as e:  # a build-time refusal of a valid signature set
             acc.violation({"space": space, "methods": mspecs, "carrier": carrier, "naming": naming, "body": body, "call": None},
                           "build-refused", {"exc": core.short_exc(e)})
+            continue
+        check_set(mspecs, carrier, body, acc, space, naming, fresh=(tier != "quick" and space == "single"))
         if k % 97 == 0:
             acc.sample({"space": space, "methods": mspecs, "carrier": carrier, "naming": naming})
         k += 1
